@@ -7,7 +7,7 @@
 From Coq Require Import String Ascii.
 From Coq Require Import List NArith ZArith Lia Bool ZifyBool ZifyN.
 From Wbxml Require Import Model.Codec Model.TablesDefs Model.Parser Model.TreeBuild Model.TreeConv Model.Conv Model.ConvConcrete
-     Proofs.ParserTotal Proofs.ParserGrowth Proofs.ParserCount Proofs.TreeBuildProofs Proofs.TreeBuildProofs2
+     Proofs.ParserTotal Proofs.ParserGrowth Proofs.ParserCount Proofs.ParserCharsMax Proofs.TreeBuildProofs Proofs.TreeBuildProofs2
      Proofs.TreeBuildProofs3 Proofs.TreeBuildSize Proofs.ConvCostXml Proofs.ConvProofs.
 From Wbxml Require Model.EncXml.
 Import ListNotations.
@@ -24,10 +24,11 @@ Proof.
   unfold wbxml2xml_model, conv_run. destruct doc as [|b0 r0]; [discriminate|].
   unfold w2x_tree_from_doc, wbxml_tree_from_wbxml.
   pose proof (tree_from_wbxml_total tbl (wo_lang o) (wo_charset o) MAX_EMBEDDED_DEPTH (b0 :: r0)) as Ht.
-  destruct (tree_from_wbxml tbl (wo_lang o) (wo_charset o) MAX_EMBEDDED_DEPTH (b0 :: r0)) as [t|[|e]|]; [| | |congruence].
+  destruct (tree_from_wbxml tbl (wo_lang o) (wo_charset o) MAX_EMBEDDED_DEPTH (b0 :: r0)) as [t|[| |e]|]; [| | | |congruence].
   - unfold w2x_encode. destruct (to_xroots tbl t) as [[xl roots]|]; [|discriminate].
     destruct (EncXml.enc_xml _ _ _ _ _) as [out|e]; cbn [r_status]; [discriminate|].
     intros H. injection H as H. exact (xerr_code_not_fuel e H).
+  - discriminate.
   - discriminate.
   - cbn [r_status]. intros H. injection H as H. exact (perr_code_not_fuel e H).
 Qed.
@@ -152,6 +153,39 @@ Proof.
   pose proof (Phi_mono _ _ (Nat.le_trans _ _ _ (chars_total_le evs) Hg)) as Hphi.
   unfold Phi at 1. lia.
 Qed.
+(* degree 3: an embedded document is parsed from ONE character-data event, and a single event is at most
+   Bc = 5 n + Kmax + 121 bytes long (Proofs/ParserCharsMax.v); Phi x <= x * Psi for x <= Bc, and a linear function of the
+   sizes sums to the same function of their total, which is at most E(n) *)
+Definition PsiC (Bc : nat) : nat := (24 * (2 * Bc + 2 * Kmax tbl + 122) + Cn * 2)%nat.
+
+Lemma Phi_lin Bc x : (x <= Bc)%nat -> (Phi x <= x * PsiC Bc)%nat.
+Proof. intros H. unfold Phi, PsiC. nia. Qed.
+
+Lemma ems_bound1_lin Bc evs : chars_le Bc evs ->
+  (ems mE mT mC mS1 evs <= 24 * evs_size evs + Cn * cnt evs + chars_total evs * PsiC Bc)%nat.
+Proof.
+  intros Hc. induction Hc as [|e r He Hr IH]; [cbn; lia|]. rewrite ems_cons. cbn [evs_size cnt].
+  destruct e as [cs lid|t a|b|tg dt|t|]; cbn [em ev_size ecnt chars_total]; try lia.
+  - assert (Hm : (mE t a <= 24 * (tn_size t + attrs_size a) + Cn * S (length a))%nat) by (unfold mE, Cn; nia). nia.
+  - pose proof (Phi_lin Bc (length b) He) as Hp. assert (HC : (12 <= Cn)%nat) by (unfold Cn; lia).
+    assert (E1 : mT b = (24 * length b)%nat) by reflexivity. assert (E2 : mC = 12%nat) by reflexivity.
+    assert (E3 : mS1 b = Phi (length b)) by reflexivity. rewrite Nat.mul_add_distr_l, Nat.mul_add_distr_r. lia.
+Qed.
+
+Lemma level1_measure3 forced meta bs evs t :
+  parse_with tbl forced meta (S (length bs)) bs = POk evs -> build tbl 1 evs = BOk t ->
+  (tmr mE mT mC t <= Phi (length bs)
+                     + length bs * (2 * length bs + 2 * Kmax tbl + 122) * PsiC (5 * length bs + Kmax tbl + 121))%nat.
+Proof.
+  intros Hp Hb. pose proof (build_measure mE mT mC mS1 mT_app tbl 1 evs t sub_ok1 Hb) as Hm.
+  pose proof (ems_bound1_lin _ evs (parse_chars_max _ _ _ _ _ _ Hp)) as He.
+  pose proof (parse_growth _ _ _ _ _ _ Hp) as Hg. pose proof (parse_count _ _ _ _ _ _ Hp) as Hc.
+  assert (Hmul : (Cn * cnt evs <= Cn * (2 * length bs))%nat) by (apply Nat.mul_le_mono_l; exact Hc).
+  assert (Hct : (chars_total evs * PsiC (5 * length bs + Kmax tbl + 121)
+                 <= length bs * (2 * length bs + 2 * Kmax tbl + 122) * PsiC (5 * length bs + Kmax tbl + 121))%nat).
+  { apply Nat.mul_le_mono_r. exact (Nat.le_trans _ _ _ (chars_total_le evs) Hg). }
+  unfold Phi at 1. lia.
+Qed.
 End Size.
 
 Definition size_bound (tbl : list lang) (indent : N) (n : nat) : nat :=
@@ -181,7 +215,76 @@ Theorem model_size tbl o doc :
   (N.to_nat (r_len (wbxml2xml_model tbl o doc)) <= size_bound tbl (wo_indent o) (length doc))%nat.
 Proof.
   unfold wbxml2xml_model, conv_run. destruct doc as [|b0 r0]; [cbn [r_len]; lia|]. unfold w2x_tree_from_doc.
-  destruct (wbxml_tree_from_wbxml tbl (wo_lang o) (wo_charset o) (b0 :: r0)) as [t|[|e]|] eqn:Et; try (cbn [r_len]; lia).
+  destruct (wbxml_tree_from_wbxml tbl (wo_lang o) (wo_charset o) (b0 :: r0)) as [t|[| |e]|] eqn:Et; try (cbn [r_len]; lia).
   destruct (w2x_encode tbl o t) as [out|e] eqn:Ee; [|cbn [r_len]; lia].
   cbn [r_len]. rewrite Nat2N.id. exact (conv_size tbl o (b0 :: r0) t out Et Ee).
 Qed.
+
+(* ---- the bound over N (binary numbers: it can be evaluated) ---- *)
+Definition PhiN (K C x : N) : N := 24 * (x * (2 * x + 2 * K + 122)) + C * (2 * x).
+Definition CnN (tbl : list lang) (indent : N) : N :=
+  2 * (255 * (u8 indent + 1)) + 2 * N.of_nat (Kmax tbl) + N.of_nat (KnsT tbl) + 12.
+Definition bound_N (tbl : list lang) (indent n : N) : N :=
+  let K := N.of_nat (Kmax tbl) in
+  N.of_nat (Khdr tbl) + PhiN K (CnN tbl indent) n + PhiN K (CnN tbl indent) (n * (2 * n + 2 * K + 122)).
+
+Lemma size_bound_N tbl indent n : N.of_nat (size_bound tbl indent n) = bound_N tbl indent (N.of_nat n).
+Proof.
+  unfold size_bound, bound_N, PhiN, CnN, Phi, Cn. cbv zeta.
+  generalize (Kmax tbl) (KnsT tbl) (Khdr tbl) (u8 indent). intros k s h u. lia.
+Qed.
+
+Theorem model_size_N tbl o doc :
+  r_len (wbxml2xml_model tbl o doc) <= bound_N tbl (wo_indent o) (N.of_nat (length doc)).
+Proof.
+  rewrite <- size_bound_N. pose proof (model_size tbl o doc) as H. lia.
+Qed.
+
+
+(* ---- degree 3 ---- *)
+Definition size_bound3 (tbl : list lang) (indent : N) (n : nat) : nat :=
+  let D := (255 * (N.to_nat (u8 indent) + 1))%nat in
+  (Khdr tbl + Phi tbl D n + n * (2 * n + 2 * Kmax tbl + 122) * PsiC tbl D (5 * n + Kmax tbl + 121))%nat.
+
+Theorem conv_size3 tbl o doc t out :
+  wbxml_tree_from_wbxml tbl (wo_lang o) (wo_charset o) doc = BOk t -> w2x_encode tbl o t = inl out ->
+  (length out <= size_bound3 tbl (wo_indent o) (length doc))%nat.
+Proof.
+  unfold wbxml_tree_from_wbxml, tree_from_wbxml, MAX_EMBEDDED_DEPTH.
+  destruct (parse_with tbl (wo_lang o) (wo_charset o) (S (length doc)) doc) as [evs|e|] eqn:Ep; try discriminate.
+  intros Hb. unfold w2x_encode, to_xroots. destruct (find_lang tbl (wt_lang t)) as [l|] eqn:El; [|discriminate].
+  destruct (EncXml.enc_xml _ _ _ _ _) as [out'|e] eqn:Ee; [|discriminate]. intros H. injection H as <-.
+  apply enc_xml_cost in Ee. unfold size_bound3. set (D := (255 * (N.to_nat (u8 (wo_indent o)) + 1))%nat) in *.
+  pose proof (find_lang_In tbl _ _ El) as Hl.
+  pose proof (level1_measure3 tbl D _ _ _ _ _ Ep Hb) as Hm.
+  assert (Hh : (hdr_len (EncXml.xlang_of l) <= Khdr tbl)%nat) by (unfold Khdr; apply maxl_In; apply (in_map (fun l => hdr_len (EncXml.xlang_of l)) _ l Hl)).
+  assert (Hr : (list_sum (map (xc D (EncXml.xlang_of l)) match wt_root t with Some r => [to_xnode tbl l r] | None => [] end)
+                <= tmr (mE tbl D) mT mC t)%nat).
+  { unfold tmr. destruct (wt_root t) as [r|]; cbn [map]; rewrite ?ConvCostXml.list_sum_cons; [|cbn; lia].
+    pose proof (to_xnode_cost tbl D r l Hl). change (list_sum []) with 0%nat. lia. }
+  cbv zeta. lia.
+Qed.
+
+Theorem model_size3 tbl o doc :
+  (N.to_nat (r_len (wbxml2xml_model tbl o doc)) <= size_bound3 tbl (wo_indent o) (length doc))%nat.
+Proof.
+  unfold wbxml2xml_model, conv_run. destruct doc as [|b0 r0]; [cbn [r_len]; lia|]. unfold w2x_tree_from_doc.
+  destruct (wbxml_tree_from_wbxml tbl (wo_lang o) (wo_charset o) (b0 :: r0)) as [t|[| |e]|] eqn:Et; try (cbn [r_len]; lia).
+  destruct (w2x_encode tbl o t) as [out|e] eqn:Ee; [|cbn [r_len]; lia].
+  cbn [r_len]. rewrite Nat2N.id. exact (conv_size3 tbl o (b0 :: r0) t out Et Ee).
+Qed.
+
+Definition bound3_N (tbl : list lang) (indent n : N) : N :=
+  let K := N.of_nat (Kmax tbl) in
+  let C := CnN tbl indent in
+  N.of_nat (Khdr tbl) + PhiN K C n + n * (2 * n + 2 * K + 122) * (24 * (2 * (5 * n + K + 121) + 2 * K + 122) + C * 2).
+
+Lemma size_bound3_N tbl indent n : N.of_nat (size_bound3 tbl indent n) = bound3_N tbl indent (N.of_nat n).
+Proof.
+  unfold size_bound3, bound3_N, PhiN, CnN, Phi, PsiC, Cn. cbv zeta.
+  generalize (Kmax tbl) (KnsT tbl) (Khdr tbl) (u8 indent). intros k s h u. lia.
+Qed.
+
+Theorem model_size3_N tbl o doc :
+  r_len (wbxml2xml_model tbl o doc) <= bound3_N tbl (wo_indent o) (N.of_nat (length doc)).
+Proof. rewrite <- size_bound3_N. pose proof (model_size3 tbl o doc) as H. lia. Qed.
